@@ -162,7 +162,7 @@ var scenarios = []scenario{
 			w.Flow(10, nil)
 			w.Step(sys.Stim{K: "point", T: t})
 			w.Flow(10, nil)
-			if t2 := w.FreeThread(); t2 != "" {
+			if t2 := w.FreeThread(); t2 != "" && rng.Intn(2) == 0 { // else the family's tail issues the next call
 				w.Step(sys.Stim{K: "start", T: t2, Op: "Invoke", Md: "none"})
 				for i := 0; i < 3; i++ {
 					w.Step(sys.Stim{K: "point", T: t2})
